@@ -416,12 +416,23 @@ PROPS = {
                    "and hello grammars (incl. inside <capabilities> and <load-configuration-results>) are invariant for all "
                    "grammar documents; an XML declaration is invariant for ALL event lists; whitespace around token-valued "
                    "leaf text is invariant for all strings and paddings (trim_pad_invariant); the empty-element form and "
-                   "comments inside leaf text are NOT invariant (counter-example theorems; known findings). Tokenizer-level "
-                   "rewrites (prefix vs default namespace, inter-element whitespace, attribute order/quoting) are invisible "
-                   "in the event list and are covered by the metamorphic run only.",
+                   "comments inside leaf text are NOT invariant (counter-example theorems; known findings). The prefix-renaming "
+                   "rewrite (prefix vs default namespace, another prefix for the same namespace) is decided by theorems at "
+                   "event level: it changes exactly the raw qualified names of Start/Empty/End events (renameEvs f), and for "
+                   "every injective f every reader is invariant on ALL event lists, every configuration and every oracle - "
+                   "replies (readMessage, both parse phases), hello (establish), the agent's candidate reader "
+                   "(readCandidatesDoc / readCandidates) and installed-policies reader (readInstalledDoc / readInstalledEv) "
+                   "(reply_/hello_/candidates_/installed_rename_invariant, Lemmas/Rename.lean: one commutation lemma per "
+                   "loop; no reader compares a raw element name with a constant). The remaining tokenizer-level rewrites "
+                   "(inter-element whitespace, attribute order/quoting) are invisible in the event list and are covered by "
+                   "the metamorphic run only.",
         level_note="The metamorphic run (real code: original vs one rewrite at one target) is testing; it is what ties the "
-                   "theorems' event-level rewrites to text-level rewrites and is the only coverage of the tokenizer-level "
-                   "ones and of the agent's configuration readers (fetch.rs), whose event-level model belongs to C16.",
+                   "theorems' event-level rewrites to text-level rewrites. For the prefix rewrite what remains tested only "
+                   "is that quick-xml's namespace resolution maps a prefix rewrite of the source text to exactly such a "
+                   "renaming of the event list (same resolved namespace, local name, attributes and span; only raw names "
+                   "change, injectively). Inter-element whitespace and attribute order/quoting are covered by the "
+                   "metamorphic run only. For the agent's configuration readers (fetch.rs; event-level models of C16/C01) "
+                   "only the renaming rewrite is a theorem; their other rewrites are covered by the metamorphic run.",
         rule="8 reply documents (4 kinds), a hello, an installed configuration and a running configuration with annotated "
              "statements, each re-serialised with ONE rewrite at ONE target element: prefix style, whitespace between "
              "elements, attribute quotes/order, XML declaration, comment before root / between children of each element "
